@@ -1,14 +1,31 @@
 """C18 Numeric builtins and bit operators compute what their names say.
 Model: MC_Eval_c18 - abs, ceil, floor, round, roundBank, toInt, toFloat, finite on a grid of ties, signs, zeros, near-integers,
 15-digit and scaled values; max/min on argument lists of length 1-3 and 6 (and spread); toFloat(toString(x)) === x; conversions
-of texts; & | ^ on all pairs of an 18-integer grid up to +-(2^53-1), ~ and ~~.  Invariant NamesSay states the defining bounds
+of texts; & | ^ on all pairs of an 18-integer grid up to +-(2^53-1), ~ and ~~.  Trace validation (Trace_Math): sqrt, exp, ln, log recorded on anchors and
+seeded random arguments of up to 15 significant digits and judged by FTranscend (sqrt by squaring, exp against a fixed-point
+Taylor evaluation with 28 correct digits, ln and log through exp).  Invariant NamesSay states the defining bounds
 (least integer >= x, within 1/2, ties to even, truncation) independently of the operators that compute the expected values."""
 from checks.evalcheck import run_family
 
+import json
+
+def corrupt(lines):
+    for i, l in enumerate(lines):
+        e = json.loads(l)
+        if len(e["r"][1]) >= 15:
+            e["r"][1][12] = (e["r"][1][12] + 3) % 10        # the 13th significant digit
+            return i, json.dumps(e)
+    raise RuntimeError("nothing to corrupt")
+
 def run(ctx):
     run_family(ctx, "c18", 2200)
+    # sqrt, exp, ln, log: recorded from the real builtins, judged by the fixed-point oracle FTranscend
+    tr = ctx.record("math", "math", ["-n", 900 if ctx.thorough else 48])
+    ctx.validate("math-validate", "trace/Trace_Math.tla", "trace/Trace_Math.cfg", tr, "math", shards=16 if ctx.thorough else 12, timeout=3400)
+    ctx.selftest_binding("math", "trace/Trace_Math.tla", "trace/Trace_Math.cfg", tr, "math", corrupt)
     return ctx.finish(
         rule="every call / operator application of the family evaluated by the real evaluator; compared: exact decimal result; round at "
              "a tie accepts either neighbour; non-trivial = pinned cases",
-        assumptions=["sqrt, exp, ln, log (15 significant digits) are not decided by this check yet: see DESIGN.md section 6",
+        assumptions=["sqrt / exp / ln / log: 'agree to 15 significant digits' is read as a relative error of at most 5e-15; exp arguments below 40 in magnitude; "
+                     "the oracle evaluates exp in 32-decimal fixed point (relative error < 1e-28) and checks itself on known constants",
                      "results on non-finite arguments and integers beyond 2^53 are unpinned"])
